@@ -196,5 +196,48 @@ def run(E: Engine, rep: Report, tier: str) -> dict:
         rep.violation("GUARD", "QutipOperator.expect|complex-value-returned-whole", f"QutipOperator.expect returns `{sh(rex, 100)}`: a real/imaginary/absolute part of the expectation value. Operators built from representations, sums, scalings and products need not be Hermitian, so <A> is complex and expect() is no longer linear", E.where(ex))
     else:
         rep.excepted("GUARD", "QutipOperator.expect|complex-value-returned-whole", f"returned value `{sh(rex, 80)}` wraps qutip.expect in a way the rule does not classify: not decided", E.where(ex))
-    rep.floor("GUARD", 14)
+    # a bra handed to QutipState is stored as its ket: the adjoint (conjugate transpose), not the plain transpose
+    from .symutil import branches as _br20, mentions as _ment20
+
+    qinit = E.method("pulser_simulation.qutip_state.QutipState", "__init__")
+    stores = [l for l in S(E, qinit).logged("store") if l.target is not None and l.target[0] == "attr" and l.target[2] == "_state" and l.target[1] == ("name", "self")]
+    if not stores:
+        raise AnalysisError("anchor: QutipState.__init__ no longer stores self._state")
+    n_bra = 0
+    for l in stores:
+        for conds, leaf in _br20(unobj(l.value)):
+            pos = [c for c in conds + tuple(sym.conj_of(l.cond)) if c[0] != "not" and _ment20(c, "isbra")]
+            if not pos:
+                continue
+            n_bra += 1
+            leaf = unobj(leaf)
+            rep.check(leaf[0] == "call" and leaf[1][0] == "attr" and leaf[1][2] == "dag", "GUARD", "QutipState.__init__|bra-stored-as-adjoint", "a bra is converted with .dag()",
+                      f"a bra is stored as `{sh(leaf, 60)}`: the ket of <psi| is its adjoint (conjugate transpose); a transpose without conjugation flips the sign of every imaginary amplitude, so overlaps and expectation values of complex states change", E.where(qinit, l.node))
+    if n_bra == 0:
+        rep.excepted("GUARD", "QutipState.__init__|bra-stored-as-adjoint", "no branch on `isbra` found: bra handling is written in a form the rule does not classify (not decided)", E.where(qinit))
+    # overlap: |<a|b>|^2 for two kets, Tr(rho sigma) / <psi|rho|psi> as soon as one side is a density matrix -- the
+    # squared-modulus form is taken only when BOTH states are kets
+    ov = E.method("pulser_simulation.qutip_state.QutipState", "overlap")
+    rov = S(E, ov).ret
+    n_sq = 0
+    def _has_pow(t):
+        return any(x[0] == "bin" and x[1] == "Pow" for x in sym.subterms(t))
+
+    for t_if in [t for t in sym.subterms(rov) if t[0] == "ifexp"] if rov is not None else []:
+        a_, b_ = _has_pow(t_if[2]), _has_pow(t_if[3])
+        if a_ == b_:
+            continue
+        lits = list(sym.conj_of(t_if[1] if a_ else sym.mk_not(t_if[1])))
+
+        def is_ket(who):
+            st_t = sym.Pattern(f"{who}._state").term
+            # (the stored state is a ket or an operator: `not isoper` is the same test)
+            return any(x == ("attr", st_t, "isket") or x == sym.mk_not(("attr", st_t, "isoper")) or x == sym.mk_cmp("NotEq", ("attr", st_t, "type"), ("const", "oper")) or x == sym.mk_cmp("Eq", ("attr", st_t, "type"), ("const", "ket")) or x == sym.mk_cmp("Eq", ("const", "ket"), ("attr", st_t, "type")) for x in lits)
+
+        n_sq += 1
+        rep.check(is_ket("self") and is_ket("other"), "GUARD", f"QutipState.overlap|squared-modulus-only-for-two-kets|{n_sq}", "|<a|b>|^2 is used under `self._state.isket and other._state.isket`",
+                  f"the overlap is squared under `{' and '.join(sh(x, 60) for x in lits if _ment20(x, 'isket', 'type', 'isoper')) or 'no ket test'}`: for two density matrices Tr(rho sigma) already is the overlap, squaring it changes every value strictly between 0 and 1", E.where(ov))
+    if n_sq == 0:
+        rep.excepted("GUARD", "QutipState.overlap|squared-modulus-only-for-two-kets", "no squared alternative found in the returned value (not decided)", E.where(ov))
+    rep.floor("GUARD", 16)
     return {"atoms": sorted(seen)}
